@@ -1462,7 +1462,11 @@ class SVG:
             remove_blank_text=True,
             # external entities may load local files (e.g. /etc/passwd), so disable
             # safe entities like &gt; are still allowed
-            resolve_entities=False,
+            # Entities declared in the document's own DTD are expanded where lxml
+            # can do that selectively: unexpanded references in attribute values
+            # read as empty strings and crash lxml when the root element is rebuilt
+            # in _fix_xlink_ns
+            resolve_entities="internal" if etree.LXML_VERSION >= (5, 0) else False,
         )
         tree = etree.fromstring(string.encode("utf-8"), parser)
         tree = _fix_xlink_ns(tree)
